@@ -487,11 +487,11 @@ func checkC20(c *Ctx) {
 				if strings.HasPrefix(a, "Decode(") && strings.HasSuffix(a, " == nil") {
 					okD = true
 				}
-				if a == "pld.Level != nil" {
+				if strings.HasSuffix(a, ".Level != nil") && !strings.ContainsAny(strings.TrimSuffix(a, ".Level != nil"), "( ") {
 					okN = true
 				}
 			}
-			c.Check(okD && okN && Desc(rv[0]) == "pld.Level", "R20.3", FStr(dj), "success-needs-level#"+itoa(k+1), r.Pos(), "a level is returned only after a successful decode that produced a non-nil level (guards %v, value *%s)", atoms, Desc(rv[0]))
+			c.Check(okD && okN && strings.HasSuffix(Desc(rv[0]), ".Level") && !strings.ContainsAny(Desc(rv[0]), "( "), "R20.3", FStr(dj), "success-needs-level#"+itoa(k+1), r.Pos(), "a level is returned only after a successful decode that produced a non-nil level (guards %v, value *%s)", atoms, Desc(rv[0]))
 		}
 	}
 	if du != nil {
